@@ -254,6 +254,15 @@ def run_lockorder(pid, out, known, confirmed, stats):
         out.violation({"property": pid, "lockorder": True, "signature": "CONC/lockorder-model",
                        "what": "EXISTS a b a || EXISTS a b without writers must finish (lock model: C06_readers_alone_finish): " + line2,
                        "readable": ["vh lockorder readers"], "replay_cmd": "bin/check %s --replay <this file>" % pid})
+    rc3, o3 = C.sh([C.VH, "lockorder", "pref"], env=C.go_env(), timeout=60)
+    line3 = next((l for l in o3.splitlines() if l.startswith("LOCKORDER")), "")
+    stats["lockorder_pref"] = line3
+    f3 = dict(x.split("=") for x in line3.split()[1:]) if line3 else {}
+    # r2_blocked=false only means the writer had not reached Lock() yet (machine load): recorded in the evidence, not judged
+    if f3.get("staged") in ("True", "true") and f3.get("done") != "3/3":
+        out.violation({"property": pid, "lockorder": True, "signature": "CONC/lockorder-model",
+                       "what": "reader || queued writer || second reader: all must finish after the first reader commits (lock model: C06_writer_preference): " + line3,
+                       "readable": ["vh lockorder pref"], "replay_cmd": "bin/check %s --replay <this file>" % pid})
     if f["done"] != "4/4":
         sig = "CONC/deadlock:lock-order-readers"
         text = "EXISTS a b a || RPUSH a x || EXISTS a b || RPUSH b y || RPUSH a z: " + line
